@@ -291,6 +291,8 @@ def refute_and_replay(o, frb, K, pid):
                 for k, v in cfg.items():
                     z3.set_param(k, v)
                 res = _refute_one(o, frb, K, pid, cfg)
+                if isinstance(res, dict) and res.get('candidate_model_only') and not res.get('replayed'):
+                    res = None      # an unconfirmed candidate model of an `unknown` query is not evidence
                 with os.fdopen(w, 'wb') as f:
                     pickle.dump(res, f)
             except BaseException as e:       # noqa
@@ -385,10 +387,23 @@ def _refute_one(o, frb, K, pid, cfg):
         wd.cancel()
     if chk == z3.unsat:
         return ('unsat',)
+    candidate = False
     if chk != z3.sat:
-        return None
+        # quantified preconditions / axioms make z3 answer `unknown (incomplete quantifiers)` although it holds a candidate
+        # model of the ground part; such a candidate is worth a native replay, and ONLY a replayed candidate is reported
+        try:
+            why = s.reason_unknown()
+        except Exception:
+            why = ''
+        if 'incomplete' not in why:
+            return None
+        try:
+            s.model()
+        except z3.Z3Exception:
+            return None
+        candidate = True
     m = s.model()
-    out = {'replayed': False, 'bound_K': K, 'path': o.info.get('trace'), 'solver': 'z3 %s %s (refutation mode: integer-range '
+    out = {'replayed': False, 'bound_K': K, 'candidate_model_only': candidate, 'path': o.info.get('trace'), 'solver': 'z3 %s %s (refutation mode: integer-range '
            'quantifiers expanded to 0..%d, well-typed pre-state)' % (z3.get_version_string(), cfg or '', K - 1)}
     oc = o.info.get('outcome')
     st0 = frb.old_state
@@ -459,6 +474,8 @@ def _refute_one(o, frb, K, pid, cfg):
                    'model), produced the outcome of the refuted path' if out['replayed'] else
                    'the real function did not produce the outcome the counter-model predicts')
     if not out['replayed']:
+        if candidate:
+            return None     # an unconfirmed candidate model of an `unknown` query is not evidence of anything
         out['model'] = _model_text(m)
     return out
 
